@@ -86,8 +86,14 @@ theorem CLok_congr {r r' : Resp} (hh : r'.hdrs .contentLength = r.hdrs .contentL
 
 /-! ### one lemma per step -/
 
-theorem expires_CLok (r : Resp) (h : CLok r) : CLok (expiresStep r).1 :=
-  CLok_congr (by simp [expiresStep]) rfl h
+theorem expires_CLok (cfg : ExpiresCfg) (r : Resp) (h : CLok r) : CLok (expiresStep cfg r).1 := by
+  unfold expiresStep
+  simp only
+  split
+  · exact h
+  · split
+    · exact CLok_congr (by simp) rfl h
+    · exact CLok_congr (by simp) rfl h
 
 theorem tee_CLok (rq : Req) (r : Resp) (h : CLok r) : CLok (teeStep rq r).1 := by
   unfold teeStep
@@ -262,7 +268,7 @@ theorem autovary_CLok (r : Resp) (h : CLok r) : CLok (autovaryStep r).1 :=
 theorem applyStep_CLok (pg : Pages) (rq : Req) (cached : Bool) (s : Step) (r : Resp) (h : CLok r) :
     CLok (applyStep pg rq cached s r).1 := by
   cases s with
-  | expires => exact expires_CLok r h
+  | expires cfg => exact expires_CLok cfg r h
   | flatten => exact flatten_CLok r h
   | etags => exact etags_CLok rq r h
   | gzip => exact gzip_CLok pg rq cached r h
